@@ -677,7 +677,12 @@ fn run_schedules(report: &Report, total: &mut Stats, q: bool) {
     // precision schedules
     let t = std::time::Instant::now();
     let datas8: Vec<Vec<u8>> = (4..=(if q { 5 } else { 7 })).flat_map(|len| all_words(&few8, len)).collect();
-    let datas16: Vec<Vec<u16>> = (3..=5).flat_map(|len| all_words(&few16, len)).collect();
+    // 32-bit state: head initialisation alone takes 3 words, so the data must be longer
+    let three8: Vec<u8> = vec![0x00, 0xff, 0x5a];
+    let datas8w: Vec<Vec<u8>> = (7..=(if q { 7 } else { 9 })).flat_map(|len| all_words(&three8, len)).collect();
+    let _ = &few16;
+    let three16: Vec<u16> = vec![0, 0xffff, 0x5a5a];
+    let datas16: Vec<Vec<u16>> = (6..=(if q { 7 } else { 9 })).flat_map(|len| all_words(&three16, len)).collect();
     macro_rules! sched {
         ($f:ident, $datas:expr, $p1:expr, $p2:expr) => {{
             let l1 = letters_at($p1);
@@ -686,8 +691,8 @@ fn run_schedules(report: &Report, total: &mut Stats, q: bool) {
             // show a few symbols after switching back); model sequences thinned out deterministically
             let thin = |v: Vec<Vec<Letter>>, want: usize| -> Vec<Vec<Letter>> { let st = (v.len() / want).max(1); v.into_iter().step_by(st).collect() };
             let s1: Vec<Vec<Letter>> = thin(model_seqs(&l1, 1), 6);
-            let s2: Vec<Vec<Letter>> = thin(model_seqs(&l2, 2), if q { 9 } else { 27 });
-            let s3: Vec<Vec<Letter>> = thin(model_seqs(&l1, 3), if q { 9 } else { 27 });
+            let s2: Vec<Vec<Letter>> = thin(model_seqs(&l2, 2), if q { 7 } else { 27 });
+            let s3: Vec<Vec<Letter>> = thin(model_seqs(&l1, 3), if q { 7 } else { 27 });
             let st = $datas.par_iter().map(|d| {
                 let mut st = Stats::default();
                 for a in &s1 { for b in &s2 { for c in &s3 {
@@ -696,19 +701,22 @@ fn run_schedules(report: &Report, total: &mut Stats, q: bool) {
                 st
             }).reduce(Stats::default, |mut a, b| { a.merge(b); a });
             report.section(json!({"precision_schedule": stringify!($f), "data_strings": $datas.len(), "cases": st.cases, "restored": st.continuations}));
+            if st.continuations == 0 && st.bad.is_empty() {
+                panic!("HARNESS: precision schedule {} is vacuous (no case reaches the end of the schedule): data too short for this state width", stringify!($f));
+            }
             total.merge(st);
         }};
     }
-    sched!(sched_8_32_2_4, datas8, 2, 4);
-    sched!(sched_8_32_4_2, datas8, 4, 2);
-    sched!(sched_8_32_2_8, datas8, 2, 8);
-    sched!(sched_8_32_8_2, datas8, 8, 2);
+    sched!(sched_8_32_2_4, datas8w, 2, 4);
+    sched!(sched_8_32_4_2, datas8w, 4, 2);
+    sched!(sched_8_32_2_8, datas8w, 2, 8);
+    sched!(sched_8_32_8_2, datas8w, 8, 2);
     sched!(sched_8_16_4_8, datas8, 4, 8);
     sched!(sched_8_16_8_4, datas8, 8, 4);
-    sched!(sched_8_32_3_4, datas8, 3, 4);
-    sched!(sched_8_32_4_3, datas8, 4, 3);
-    sched!(sched_8_32_5_2, datas8, 5, 2);
-    sched!(sched_8_32_3_8, datas8, 3, 8);
+    sched!(sched_8_32_3_4, datas8w, 3, 4);
+    sched!(sched_8_32_4_3, datas8w, 4, 3);
+    sched!(sched_8_32_5_2, datas8w, 5, 2);
+    sched!(sched_8_32_3_8, datas8w, 3, 8);
     sched!(sched_8_16_5_6, datas8, 5, 6);
     sched!(sched_16_32_12_8, datas16, 12, 8);
     sched!(sched_16_32_10_16, datas16, 10, 16);
@@ -892,7 +900,9 @@ fn single_step_part(report: &Report, total: &mut Stats, q: bool) {
     let comps8: Vec<Vec<u8>> = if q { vec![vec![], vec![0x00], vec![0xa7], vec![0x3c, 0xff]] } else {
         let mut v: Vec<Vec<u8>> = vec![vec![]]; v.extend((0..=255u8).step_by(3).map(|w| vec![0x3c, w])); v.push(vec![0x3c, 0xfe]); v };
     let rems8: Vec<Vec<u8>> = if q { vec![vec![], vec![0x11, 0xff]] } else { vec![vec![], vec![0x5a], vec![0x11, 0xff]] };
-    c8_16_2::single_step_sweep(report, total, &heads8, (64u16..16384).collect(), &all_pairs(2), &comps8, &rems8, "all 255 compressed heads x all 16320 valid remainders heads");
+    // (quick: compressed heads 1..=255 in steps of 2 plus the powers of two; all remainders heads)
+    let heads8q: Vec<u8> = if q { let mut v: Vec<u8> = (1..=255u8).step_by(2).chain([2u8, 4, 8, 16, 32, 64, 128, 254]).collect(); v.sort(); v } else { heads8.clone() };
+    c8_16_2::single_step_sweep(report, total, &heads8q, (64u16..16384).collect(), &all_pairs(2), &comps8, &rems8, "compressed heads (thorough: all 255) x all 16320 valid remainders heads");
     let l4 = if q { letters_at(4) } else { all_pairs(4) };
     let comps8s: Vec<Vec<u8>> = vec![vec![], vec![0x00], vec![0xa7], vec![0x3c, 0xff]];
     c8_16_4::single_step_sweep(report, total, &heads8, (16u16..4096).collect(), &l4, &comps8s, &rems8, "all 255 compressed heads x all 4080 valid remainders heads");
